@@ -97,12 +97,14 @@ def server_part(ctx, rng, cases, worst, thorough):
         pick = set(rng.sample(range(len(cutsets)), min(len(cutsets), quota)))
         for idx, (cs, forced) in enumerate(todo):
             chunks = F.cut(stream, [c for c in cs if 0 < c < L])
-            _, obs = F.run_server(chunks)
+            nd, obs = F.run_server(chunks)
             ctx.count("server_runs")
             ctx.count("server_exhaustive_runs" if (exhaustive and not forced) else "server_other_runs")
             sig = ("srv", stream.hex(), tuple(len(c) for c in chunks))
             ctx.case(sig, nontrivial=len(chunks) > 1 or len(frames) > 1)
             v = judge_server(frames, chunks, obs)
+            if nd.crashes:
+                v = ("server:unexpected-exception", "dataReceived raised %s" % nd.crashes[0])
             d = {"part": "server", "sent": show_frames(frames), "chunks": hexl(chunks),
                  "handled_per_read": [show_frames(hs) for hs, _, _ in obs], "buf_after": [b.hex() for _, b, _ in obs]}
             if v:
@@ -259,6 +261,7 @@ def client_part(ctx, rng, cases, worst, thorough):
         extra = [(), tuple(range(1, L))] + [F.rand_cutset(rng, L) for _ in range(30 if thorough else 10)]
         pick = set(rng.sample(range(len(cutsets)), min(len(cutsets), 32 if exhaustive else 10)))
         want = spec_calls(ms)
+        nbad = 0
         ids = [m[1] for m in ms if m[0] == "RDone"]
         for idx, cs in enumerate(cutsets + extra):
             chunks = F.cut(stream, [c for c in cs if 0 < c < L])
@@ -276,7 +279,8 @@ def client_part(ctx, rng, cases, worst, thorough):
                 ctx.count("client_oracle_failures")
                 worst.add("client:replies-not-reassembled", (len(ms), L, len(chunks)),
                           "_handle_reply calls returned %r, the reply stream was %r" % (calls, ms), d)
-            if idx in pick or idx >= len(cutsets) or not ok:
+            if idx in pick or idx >= len(cutsets) or (not ok and nbad < 30):
+                nbad += 0 if ok else 1
                 cases.append((F.client_case(len(ms) + 2, pre, chunks, calls, bytes(c.buf)), d))
     # malformed reply streams: unknown type byte, truncated message, negative array length -- model only
     for _ in range(60 if thorough else 20):
@@ -553,6 +557,11 @@ def run(ctx):
                 "socket: lockstep / burst / oversize / mixed schedules, 1 B..40 kB, plain and structured; a case is non-trivial when the "
                 "stream is cut at least once or holds more than one message; distinct = distinct (stream, chunk sizes)")
     common.check_properties_file(ctx)
+    if thorough:
+        import subprocess
+        p = subprocess.run(["timeout", "900", "coqchk", "-silent", "-o", "-Q", "theories", "SQ", "SQ.Properties.C10"],
+                           cwd=common.COQ, stdout=subprocess.PIPE, stderr=subprocess.STDOUT, text=True)
+        ctx.obligation("coqchk re-checks Properties/C10.vo and everything it depends on", p.returncode == 0, p.stdout[-800:])
 
     cases, worst = [], Worst()
     server_part(ctx, rng, cases, worst, thorough)
